@@ -3,19 +3,29 @@
 #   ./check.sh <Cxx> quick|thorough        exit 0 ok / 1 VIOLATION / 2 harness error
 #   ./check.sh replay <file>
 set -u
+# resolve a replay file given relative to the caller's directory before changing directory
+if [ "${1:-}" = "replay" ] && [ -n "${2:-}" ]; then REPLAY_FILE=$(readlink -f "$2"); fi
 cd "$(dirname "$0")/sim" || exit 2
 export CARGO_NET_OFFLINE=true
 build() {
-  if ! cargo build --release --offline >/tmp/liquid-sim-build.$$.log 2>&1; then
-    cat /tmp/liquid-sim-build.$$.log >&2
-    rm -f /tmp/liquid-sim-build.$$.log
-    echo "HARNESS-ERROR: simulator (or /repo with verif-hooks) failed to build" >&2
-    exit 2
+  # 1. instrumenting copy of /repo's working tree (std::sync -> simulator-aware drop-in), 2. build.
+  #    If the instrumented sources do not compile (a change uses a std::sync API the drop-in lacks),
+  #    fall back to the plain copy: the checks still run, only with coarser scheduling points.
+  python3 ../tools/instrument.py >/tmp/liquid-sim-build.$$.log 2>&1 || { cat /tmp/liquid-sim-build.$$.log >&2; echo "HARNESS-ERROR: instrumenting copy failed" >&2; exit 2; }
+  if ! cargo build --release --offline >>/tmp/liquid-sim-build.$$.log 2>&1; then
+    python3 ../tools/instrument.py --no-rewrite >/dev/null 2>&1
+    if ! cargo build --release --offline >>/tmp/liquid-sim-build.$$.log 2>&1; then
+      cat /tmp/liquid-sim-build.$$.log >&2
+      rm -f /tmp/liquid-sim-build.$$.log
+      echo "HARNESS-ERROR: simulator (or /repo with verif-hooks) failed to build" >&2
+      exit 2
+    fi
+    echo "NOTE: std::sync interposition disabled for this build (instrumented sources did not compile)"
   fi
   rm -f /tmp/liquid-sim-build.$$.log
 }
 if [ "${1:-}" = "build" ]; then build; exit 0; fi
-if [ "${1:-}" = "replay" ]; then build; exec ./target/release/liquid-sim replay "$2"; fi
+if [ "${1:-}" = "replay" ]; then build; exec ./target/release/liquid-sim replay "$REPLAY_FILE"; fi
 id="${1:?property id}"; tier="${2:-${VERIF_TIER:-quick}}"
 build
 exec ./target/release/liquid-sim check "$id" --tier "$tier"
